@@ -137,8 +137,20 @@ func Explore(opts Options, mk func() *Exec) *Stats {
 						break
 					}
 				}
-				st.Violations = append(st.Violations, v)
-				return st
+				// keep exploring: a scenario may hide a second, different
+				// violation behind a known one; collect up to 4 distinct kinds
+				kind := violationKind(v.Msg)
+				dup := false
+				for _, o := range st.Violations {
+					dup = dup || violationKind(o.Msg) == kind
+				}
+				if !dup {
+					st.Violations = append(st.Violations, v)
+				}
+				if len(st.Violations) >= 4 {
+					st.CapHit = "4 distinct violations"
+					return st
+				}
 			}
 			h := fnv.New64a()
 			h.Write([]byte(oc))
@@ -178,6 +190,22 @@ func Explore(opts Options, mk func() *Exec) *Stats {
 	}
 	st.Exhaustive = true
 	return st
+}
+
+// violationKind strips the varying parts (numbers) off a failure message.
+func violationKind(msg string) string {
+	b := []byte(msg)
+	out := b[:0]
+	for _, c := range b {
+		if c >= '0' && c <= '9' {
+			continue
+		}
+		if c == '\n' {
+			break
+		}
+		out = append(out, c)
+	}
+	return string(out)
 }
 
 // Replay runs one schedule with tracing on.
